@@ -171,6 +171,28 @@ func (l *Ledger) Undecide(rule, fn, key, pos, why string) {
 }
 func (l *Ledger) Note(f string, a ...interface{}) { l.Notes = append(l.Notes, fmt.Sprintf(f, a...)) }
 
+// CountBad: obligations that currently fail the run.
+func (l *Ledger) CountBad() int {
+	n := 0
+	for _, o := range l.Obs {
+		if o.Status == Violation || o.Status == Undecided {
+			n++
+		}
+	}
+	return n
+}
+
+// CountBadRule: failing obligations of one rule so far.
+func (l *Ledger) CountBadRule(rule string) int {
+	n := 0
+	for _, o := range l.Obs {
+		if o.Rule == rule && (o.Status == Violation || o.Status == Undecided) {
+			n++
+		}
+	}
+	return n
+}
+
 // Min enforces an instance-count floor for a rule (vacuous passes are failures).
 func (l *Ledger) Min(rule string, found, min int) {
 	l.Minima = append(l.Minima, fmt.Sprintf("%s: found %d, minimum %d", rule, found, min))
